@@ -195,6 +195,7 @@ class Collector:
         self.excluded_known = Counter()
         self.violations = []  # [(case, [failure json])]
         self.notes = Counter()
+        self.buckets = {}  # (kind, features...) -> [count, example case, detail]   (triage aid)
         self._known = KnownFindings(pid)
 
     def record(self, case, res: Result):
@@ -214,6 +215,9 @@ class Collector:
                 self.samples[key]["observed"] = jsonable(res.obs)
         unknown = []
         for f in res.failures:
+            bk = (f.kind,) + tuple(sorted((k, repr(v)) for k, v in f.features.items()))
+            b = self.buckets.setdefault(bk, [0, jsonable(case), f.detail])
+            b[0] += 1
             fid = self._known.match(f)
             if fid is None:
                 unknown.append(f)
@@ -231,6 +235,11 @@ class Collector:
             self.samples.setdefault(k, v)
         self.excluded_known.update(other.excluded_known)
         self.notes.update(other.notes)
+        for k, v in other.buckets.items():
+            if k in self.buckets:
+                self.buckets[k][0] += v[0]
+            else:
+                self.buckets[k] = v
         for v in other.violations:
             if len(self.violations) < 5:
                 self.violations.append(v)
